@@ -155,5 +155,7 @@ func init() {
 		}
 		recordDigest(app, "analyze_usecase.go", "AnalyzeUseCase", "getFilePatterns")
 		recordDigest(app, "file_resolution_helper.go", "", "ResolveFilePaths")
+		recordDigest(app, "file_resolution_helper.go", "", "uniquePaths")
+		recordDigest(svc, "file_reader.go", "FileReaderImpl", "FileExists")
 	})
 }
